@@ -161,6 +161,8 @@ pub enum Step {
     AnswerErr(u16, i32),
     /// from now on getinfo replies carry (true) / do not carry (false) the sync warnings
     SyncWarning(bool),
+    /// the i-th outstanding waitsendpay (also one held on a pending part) gets an RPC-level error of this code
+    FailWait(u16, i32),
 }
 
 #[derive(Clone, Debug, Serialize, Deserialize, PartialEq)]
